@@ -504,6 +504,8 @@ theorem lemma_negotiated (m : List (Bytes × Fmt)) (d : Bytes) (all : List Fmt) 
   | some ranges =>
     obtain ⟨hc1, hc2⟩ := hc ranges hp
     simp only
+    split
+    · exact hgen
     by_cases ha : ans = []
     · -- no offer is acceptable: the default decides
       have hacc : m.filter (fun kv => clientAccepts ranges kv.1) = [] := by
@@ -678,10 +680,11 @@ theorem fail_aborts (env : Env) (cfg : Cfg) (ans : Bytes) (w : Wire) (pos : Nat)
   have := List.mem_range.mp hi
   omega
 
-/-- a Content-Type that was already in the header map when the handler failed plays no part: the
-    response carries the formatter's (`http.Header.Set` replaces) -/
-theorem earlier_content_type_replaced (pre : Option Bytes) (env : Env) (cfg : Cfg) (ans : Bytes) (w : Wire)
-    (pos : Nat) (call : Call) : failH pre env cfg ans w pos call = fail env cfg ans w pos call := rfl
+/-- a Content-Type that was already in the header map when the handler failed, or a chain that was
+    already aborted, plays no part: the response is the one `fail` writes (`http.Header.Set` replaces,
+    `Abort` is idempotent) -/
+theorem earlier_content_type_replaced (pre : Option Bytes) (ab : Bool) (env : Env) (cfg : Cfg) (ans : Bytes)
+    (w : Wire) (pos : Nat) (call : Call) : failH pre ab env cfg ans w pos call = fail env cfg ans w pos call := rfl
 
 /-- exactly one response body is written -/
 theorem exactly_one_response (env : Env) (cfg : Cfg) (ans : Bytes) (pos : Nat) (call : Call) :
